@@ -8,13 +8,27 @@
 //
 //	page read    <m|s> <b|g> <classes> <del> <filter>          filter: all | t<d|f>u<0-3> | o<i>
 //	page changes <m|s> <b|g> <classes> <del> <type>            type: - | doc | folder
-//	page stores  <m|s> <b|g> <n> <perm> <del> <decoy> <mode>   mode: name | all | ids:<ranks>
+//	page stores  <m|s> <b|g> <n> <perm> <del> <decoy> <mode>   mode: name | all | ids:<ranks> | idp[n]:<ranks> | idv[n]:<ranks>
+//	conc changes m <b|g> <writers> <per> <pre>                 concurrent writers on one memory store, then ReadChanges
 //	page models  <m|s> <b|g> <n> <perm>
 //	tok <kind> <api> <m|s> <n> <ps> [<arg>]                    malformed / foreign / type-bound tokens
 //
 // classes: one letter a..h per item (a-d: type doc, e-h: type folder; user u0..u3 = letter mod 4); item i is the tuple
 // <type>:o<i>#viewer@user:u<k>.  del: indices deleted (in one later write) before reading.  perm: the order in which
 // the ranks are created (the rank is the position in id order).
+//
+// ListStores id filters (storage/command level: ListStoresQuery.Execute(ctx, req, ids); at API level the id list comes
+// from access control, in any order and recomputed for every page request): `ids:` ascending ranks, `idp:` the ranks in
+// the (shuffled) order of the case line, the same list on every page request, `idv:` another permutation of the list on
+// EVERY page request (rotation by the call number, reversed on odd calls); a trailing `n` (`idpn:`, `idvn:`) adds the
+// name filter.  Ranks >= n are ids of stores that were never created.  No duplicate ids (memory would list the store
+// twice, sqlite once).
+//
+// conc: <writers> goroutines write <per> single-tuple writes each to one store of the real memory backend (that holds
+// <pre> tuples already, so that a Write takes a while) at the same time.  Then the harness reads the whole changelog in
+// one page, reads the ULID of every entry in log order (storage level: the token of the first page of size k is the
+// ULID of entry k), and pages through with small page sizes:  "n=<entries> sorted=<ULIDs strictly increasing in log
+// order> single=<ok|…> paged=<ok|ps<k>:got<a>of<b>>".
 //
 // Output of a page case: for every page size 1..n+1 "ps=<page>/<page>/…" — a page is a list of ranks ("a-b" ascending
 // run, "a~b" descending run, "e" empty); ReadChanges ends with the empty page that stops the client.  Ranks, never
@@ -339,9 +353,13 @@ func changesPager(ctx context.Context, e env, store, typ string, rankOf map[stri
 	}
 }
 
-func storesPager(ctx context.Context, e env, name string, ids []string, rankOf map[string]int) pager {
+// idsAt(call) is the id list handed in with page request number `call` (counted over the whole case)
+func storesPager(ctx context.Context, e env, name string, idsAt func(call int) []string, rankOf map[string]int) pager {
 	q := commands.NewListStoresQuery(e.ds, commands.WithListStoresQueryEncoder(e.enc))
+	call := 0
 	return func(ps int32, tok string) ([]int, string, error) {
+		ids := idsAt(call)
+		call++
 		resp, err := q.Execute(ctx, &openfgav1.ListStoresRequest{Name: name, PageSize: wrapperspb.Int32(ps), ContinuationToken: tok}, ids)
 		if err != nil {
 			return nil, "", err
@@ -374,6 +392,28 @@ func modelsPager(ctx context.Context, e env, store string, rankOf map[string]int
 			r = append(r, v)
 		}
 		return r, resp.GetContinuationToken(), nil
+	}
+}
+
+func fixedIDs(ids []string) func(int) []string { return func(int) []string { return ids } }
+
+// varyIDs: another permutation of the same id list for every call: rotated by the call number, reversed on odd calls
+func varyIDs(ids []string) func(int) []string {
+	return func(call int) []string {
+		m := len(ids)
+		if m == 0 {
+			return nil
+		}
+		out := make([]string, m)
+		for i := range out {
+			out[i] = ids[(i+call*7+call/2)%m]
+		}
+		if call%2 == 1 {
+			for i, j := 0, m-1; i < j; i, j = i+1, j-1 {
+				out[i], out[j] = out[j], out[i]
+			}
+		}
+		return out
 	}
 }
 
@@ -493,6 +533,12 @@ func gen(r *hx.Rand, n int, tier string, emit func(string), st *hx.Stats) {
 			genTok(c, b, emit, st)
 			continue
 		}
+		if c.Chance(1, 25) {
+			// concurrent writers on the memory backend (sqlite hands `time.Now()` to its transaction from outside: not run)
+			st.Inc("conc-changes-m")
+			emit(fmt.Sprintf("conc changes m %s %d %d %d", enc, hx.Pick(c, []int{2, 4, 8, 8}), 10+c.Intn(16), 100+c.Intn(300)))
+			continue
+		}
 		sz := sizeOf(c, tier)
 		switch c.Intn(4) {
 		case 0:
@@ -523,7 +569,7 @@ func gen(r *hx.Rand, n int, tier string, emit func(string), st *hx.Stats) {
 				sz = 80
 			}
 			mode := "name"
-			switch c.Intn(4) {
+			switch c.Intn(7) {
 			case 0:
 				if b == "m" {
 					mode = "all"
@@ -533,8 +579,33 @@ func gen(r *hx.Rand, n int, tier string, emit func(string), st *hx.Stats) {
 				if mode == "ids:-" {
 					mode = "name"
 				}
+			case 2, 3, 4:
+				// the id list in a shuffled order (idp) / in another order on every page request (idv); sometimes with
+				// ids of stores that do not exist, sometimes with the name filter as well
+				var ranks []string
+				for i := 0; i < sz; i++ {
+					if c.Chance(1, 2) {
+						ranks = append(ranks, strconv.Itoa(i))
+					}
+				}
+				if c.Chance(1, 3) {
+					for k := 0; k <= c.Intn(2); k++ {
+						ranks = append(ranks, strconv.Itoa(sz+k))
+					}
+				}
+				if len(ranks) >= 2 {
+					hx.Shuffle(c, ranks)
+					kind := hx.Pick(c, []string{"idp", "idv", "idv"})
+					if c.Chance(1, 3) {
+						kind += "n"
+					}
+					mode = kind + ":" + strings.Join(ranks, ",")
+				}
 			}
 			st.Inc("page-stores-" + b)
+			if strings.HasPrefix(mode, "id") {
+				st.Inc("page-stores-" + mode[:strings.IndexByte(mode, ':')])
+			}
 			emit(fmt.Sprintf("page stores %s %s %d %s %s %s %s", b, enc, sz, permOf(c, sz), subset(c, sz, 1, 6), subset(c, sz, 1, 8), mode))
 		default:
 			if sz > 120 {
@@ -604,18 +675,26 @@ func exec(line string, st *hx.Stats) string {
 			if err != nil {
 				return "SETUPERR " + err.Error()
 			}
-			var ids []string
+			idsAt := fixedIDs(nil)
 			reqName := name
-			switch {
-			case f[8] == "all":
+			if f[8] == "all" {
 				reqName = ""
-			case strings.HasPrefix(f[8], "ids:"):
-				for _, r := range parseInts(f[8][4:]) {
+			} else if k := strings.IndexByte(f[8], ':'); k > 0 {
+				kind := f[8][:k] // ids | idp | idv, with a trailing n: the name filter as well
+				var ids []string
+				for _, r := range parseInts(f[8][k+1:]) {
 					ids = append(ids, ulidAt(r))
 				}
-				reqName = ""
+				if !strings.HasSuffix(kind, "n") {
+					reqName = ""
+				}
+				if strings.HasPrefix(kind, "idv") {
+					idsAt = varyIDs(ids)
+				} else {
+					idsAt = fixedIDs(ids)
+				}
 			}
-			return allSizes(storesPager(ctx, e, reqName, ids, rankOf), n, false)
+			return allSizes(storesPager(ctx, e, reqName, idsAt, rankOf), n, false)
 		case "models":
 			n, _ := strconv.Atoi(f[4])
 			rankOf, err := setupModels(ctx, e, store, parseInts(f[5]))
@@ -626,8 +705,134 @@ func exec(line string, st *hx.Stats) string {
 		}
 	case "tok":
 		return execTok(ctx, f)
+	case "conc":
+		if len(f) == 7 && f[1] == "changes" && f[2] == "m" {
+			return execConc(ctx, f)
+		}
 	}
 	return "BADCASE"
+}
+
+// execConc: see the header.  Everything printed is independent of the schedule as long as the changelog is in ULID order.
+func execConc(ctx context.Context, f []string) string {
+	e := newEnv("m", f[3])
+	writers, _ := strconv.Atoi(f[4])
+	per, _ := strconv.Atoi(f[5])
+	pre, _ := strconv.Atoi(f[6])
+	if writers < 1 || writers > 64 || per < 1 || per > 1000 || pre < 0 || pre > 5000 {
+		return "BADCASE"
+	}
+	store := ulid.Make().String()
+	want := map[string]bool{}
+	for i := 0; i < pre; i += 100 {
+		var w storage.Writes
+		for j := i; j < pre && j < i+100; j++ {
+			o := fmt.Sprintf("doc:p%d", j)
+			want[o] = true
+			w = append(w, &openfgav1.TupleKey{Object: o, Relation: "viewer", User: "user:u0"})
+		}
+		if err := e.ds.Write(ctx, store, nil, w); err != nil {
+			return "SETUPERR " + err.Error()
+		}
+	}
+	for w := 0; w < writers; w++ {
+		for j := 0; j < per; j++ {
+			want[fmt.Sprintf("doc:w%dx%d", w, j)] = true
+		}
+	}
+	var wg sync.WaitGroup
+	start := make(chan struct{})
+	errs := make([]error, writers)
+	for w := 0; w < writers; w++ {
+		wg.Add(1)
+		go func(w int) {
+			defer wg.Done()
+			<-start
+			for j := 0; j < per; j++ {
+				tk := &openfgav1.TupleKey{Object: fmt.Sprintf("doc:w%dx%d", w, j), Relation: "viewer", User: "user:u1"}
+				if err := e.ds.Write(ctx, store, nil, storage.Writes{tk}); err != nil {
+					errs[w] = err
+					return
+				}
+			}
+		}(w)
+	}
+	close(start)
+	wg.Wait()
+	for _, err := range errs {
+		if err != nil {
+			return "SETUPERR " + err.Error()
+		}
+	}
+	n := len(want)
+	q := commands.NewReadChangesQuery(e.ds, commands.WithReadChangesQueryEncoder(e.enc), commands.WithContinuationTokenSerializer(e.ser), commands.WithReadChangeQueryHorizonOffset(0))
+	page := func(ps int, tok string) ([]string, string, error) {
+		resp, err := q.Execute(ctx, &openfgav1.ReadChangesRequest{StoreId: store, PageSize: wrapperspb.Int32(int32(ps)), ContinuationToken: tok})
+		if err != nil {
+			return nil, "", err
+		}
+		var objs []string
+		for _, c := range resp.GetChanges() {
+			objs = append(objs, c.GetTupleKey().GetObject())
+		}
+		return objs, resp.GetContinuationToken(), nil
+	}
+	// the whole log in one page
+	full, _, err := page(n+5, "")
+	if err != nil {
+		return "n=0 sorted=true single=" + errKind(err) + " paged=ok"
+	}
+	single := "ok"
+	seen := map[string]bool{}
+	for _, o := range full {
+		if seen[o] || !want[o] {
+			single = "dup-or-foreign"
+		}
+		seen[o] = true
+	}
+	if single == "ok" && len(full) != n {
+		single = fmt.Sprintf("lost%d", n-len(full))
+	}
+	// the ULID of entry k (log order) is the token of the first page of size k (storage level)
+	sorted := true
+	prev := ""
+	for k := 1; k <= len(full); k++ {
+		_, tok, err := e.ds.ReadChanges(ctx, store, storage.ReadChangesFilter{}, storage.ReadChangesOptions{Pagination: storage.NewPaginationOptions(int32(k), "")})
+		if err != nil {
+			return "n=" + strconv.Itoa(len(full)) + " sorted=true single=" + single + " paged=ulid-read-failed"
+		}
+		if prev != "" && !(prev < tok) {
+			sorted = false
+		}
+		prev = tok
+	}
+	// small pages must concatenate to the single page
+	paged := "ok"
+	for _, ps := range []int{1, 2, 3, 7, n/2 + 1} {
+		var got []string
+		tok := ""
+		for k := 0; k <= 2*n+6; k++ {
+			objs, next, err := page(ps, tok)
+			if err != nil {
+				got = append(got, errKind(err))
+				break
+			}
+			if len(objs) == 0 {
+				break
+			}
+			got = append(got, objs...)
+			tok = next
+		}
+		same := len(got) == len(full)
+		for i := 0; same && i < len(got); i++ {
+			same = got[i] == full[i]
+		}
+		if !same {
+			paged = fmt.Sprintf("ps%d:got%dof%d", ps, len(got), len(full))
+			break
+		}
+	}
+	return fmt.Sprintf("n=%d sorted=%v single=%s paged=%s", len(full), sorted, single, paged)
 }
 
 func une(s string) string {
@@ -663,7 +868,7 @@ func dataset(ctx context.Context, e env, api string, n int, typ string) (pager, 
 		if err != nil {
 			return nil, err
 		}
-		return storesPager(ctx, e, name, nil, rankOf), nil
+		return storesPager(ctx, e, name, fixedIDs(nil), rankOf), nil
 	default:
 		perm := make([]int, n)
 		for i := range perm {
